@@ -6,7 +6,7 @@ import datetime, warnings
 
 from rac import C13 as B
 
-KNOWN = {B.K_WRAP, B.K_UNSLICE1, B.K_EMPTY_STITCH}
+KNOWN = set()          # none of the bounded module's input-class keys is a listed finding any more (all fixed): every key counts
 
 
 def _jobs(jobs):
